@@ -68,6 +68,9 @@ extern "C" void h_siphash_chunks()
     bool all = true;
     for (size_t c1 = 0; c1 <= MLEN; c1++) {
         for (size_t c2 = c1; c2 <= MLEN; c2++) {
+#ifdef TWO_WRITES
+            if (c2 != c1) continue;   // variant: only two writes (one cut point)
+#endif
             CSipHasher h(k0, k1);
             h.Write(std::span<const unsigned char>(m, c1));
             h.Write(std::span<const unsigned char>(m + c1, c2 - c1));
